@@ -129,6 +129,13 @@ func scenarioCorpus() []scenario {
 		}, fixed("commit", "-m", "emptied")},
 		{"branch-create", func(k *Walker) { k.Init(); commitBase(k) }, fixed("branch", "topic")},
 		{"branch-rename", func(k *Walker) { k.Init(); commitBase(k); k.W.Goit("branch", "other") }, fixed("branch", "-r", "trunk")},
+		{"branch-rename-case-only", func(k *Walker) { k.Init(); commitBase(k); k.W.Goit("branch", "other") }, fixed("branch", "-r", "Main")},
+		{"branch-rename-sorts-elsewhere", func(k *Walker) {
+			k.Init()
+			commitBase(k)
+			k.W.Goit("branch", "dev")
+			k.W.Goit("branch", "zeta")
+		}, fixed("branch", "-r", "alpha")},
 		{"branch-delete", func(k *Walker) { k.Init(); commitBase(k); k.W.Goit("branch", "old") }, fixed("branch", "-d", "old")},
 		{"switch", func(k *Walker) { k.Init(); commitBase(k); k.W.Goit("branch", "dev") }, fixed("switch", "dev")},
 		{"switch-c", func(k *Walker) { k.Init(); commitBase(k) }, fixed("switch", "-c", "feat")},
